@@ -2,14 +2,14 @@
 import z3
 from pyvc.spec import Contract
 from pyvc.smt import Val, RID, SVs, BV, mk_bool
-from contracts.agg_common import A, BASE_CALLS, TYPES, logged, noop
+from contracts.agg_common import A, BASE_CALLS, TYPES, logged, noop, disconnect_notification
 
 PROP = "C30"
 CALLS = dict(BASE_CALLS, **{
     "*.create_plot_log": logged("create_plot_log"),
     "*.store_recent_run": logged("store_recent_run"),
     "*.store_recent_engine": logged("store_recent_engine"),
-    "self.publish_engine_disconnected_notification": noop,
+    "self.publish_engine_disconnected_notification": disconnect_notification,
 })
 
 
